@@ -11,8 +11,9 @@
 //! card, trace[1..] to the chain's call cards from innermost to outermost (optionally followed by
 //! the program entry).
 use super::vmcommon::*;
-use crate::ctl::vmctl::{CtlConfig, GcPlan};
-use crate::ctl::vmrun::{innermost, run_program, HostPlan, Knobs, RunOut};
+use crate::ctl::vmctl::{CtlConfig, GcPlan, VmCtl};
+use crate::ctl::vmrun::{collect, empty_out, innermost, new_vm, run_program, teardown, HostPlan, Knobs, RunOut};
+use crate::kernel::worker::catch;
 use crate::kernel::{CaseCtx, Check, Rng, Tier};
 use cao_lang::compiler::{Card, CardBody, CardId, CardIndex, ForEach, Function, Module, Repeat, UnaryExpression};
 use cao_lang::prelude::*;
@@ -575,6 +576,30 @@ fn run_with(p: &CaoCompiledProgram, knobs: &Knobs, fail_alloc: Option<u64>) -> R
     run_program(p, knobs, cfg, HostPlan::default())
 }
 
+/// the program run twice on one VM; the outcome of the second run (the first one ended inside
+/// the call chain, with the frames of all active calls on the call stack)
+fn second_run_on_a_reused_vm(p: &CaoCompiledProgram, knobs: &Knobs) -> RunOut {
+    let ctl = VmCtl::new(CtlConfig { gc: GcPlan::Natural, ..Default::default() });
+    ctl.install();
+    let Some(mut vm) = new_vm(&ctl, knobs, HostPlan::default()) else {
+        VmCtl::uninstall();
+        let mut out = empty_out();
+        out.result = "<vm-init-failed>".into();
+        return out;
+    };
+    let r1 = catch(|| vm.run(p));
+    let mut out = collect(&mut vm, &ctl, p, r1, false);
+    if out.panic.is_none() && !out.aborted {
+        vm.auxiliary_data.ncalls = 0;
+        let r2 = catch(|| vm.run(p));
+        out = collect(&mut vm, &ctl, p, r2, false);
+    }
+    teardown(vm, &ctl, &mut out);
+    VmCtl::uninstall();
+    out.counters = ctl.counters();
+    out
+}
+
 pub fn examine(spec: &PathSpec, ctx: Option<&mut CaseCtx>) -> Vec<(Json, String)> {
     let mut ctxo = ctx;
     let mut v = vec![];
@@ -693,10 +718,14 @@ pub fn examine(spec: &PathSpec, ctx: Option<&mut CaseCtx>) -> Vec<(Json, String)
             }
         }
     }
-    let out = run_with(&p, &knobs, fail_alloc);
+    // bit 16: the judged run is the second one on its VM (faults placed through `mark` are
+    // positions in the first run, those kinds run once)
+    let reused = (spec.nested >> 16) & 1 == 1 && !b.mark_present;
+    let out = if reused { second_run_on_a_reused_vm(&p, &knobs) } else { run_with(&p, &knobs, fail_alloc) };
     if let Some(ctx) = ctxo.as_deref_mut() {
         ctx.evaluation();
         ctx.count("dispatches", out.counters.dispatches);
+        ctx.count("reach:judged_run_is_the_second_on_its_vm", reused as u64);
     }
     if let Some(pn) = &out.panic {
         return vec![(json!({"inv": "panic", "site": panic_site(pn)}), format!("panic {} at {}", pn.msg, panic_site(pn)))];
@@ -808,7 +837,8 @@ impl Check for C15 {
          name, unresolvable call target, a ForEach with an empty loop-variable name). In front of the interesting card sit 0-3 \
          cards that are assignments, comments, empty composites or loops / ifs with comment bodies; in half of the programs the \
          site and the calls are bare expression statements (the first instruction of the statement is the card's own), and a \
-         one-card function sits in front of a module boundary. The budget is also swept over \
+         one-card function sits in front of a module boundary; in half of the programs whose error needs no placed fault the judged \
+         run is the second one on its VM (the first ended inside the call chain). The budget is also swept over \
          the whole run: wherever it expires every trace entry must resolve to a card (or trace[0] to the function epilogue) and \
          never to a Comment card. Non-trivial = the provoked error landed on the site; distinct = distinct spec hash."
             .to_string()
@@ -918,6 +948,7 @@ impl Check for C15 {
             "fault:CallStackOverflow_at_site".into(),
             "fault:MissingVariable_at_site".into(),
             "reach:compile_error_cases".into(),
+            "reach:judged_run_is_the_second_on_its_vm".into(),
             "reach:depth_5".into(),
         ]
     }
